@@ -1,8 +1,81 @@
-(* Property C10 - statements only. *)
-From Coq Require Import List ZArith.
-From TskVerif Require Import Base.Common C05.Bytes C05.Kastore C10.Corrupt.
+(* Property C10 - truncated or corrupted files are rejected.  Statements only.  Model as for C05
+   (C05/Kastore.v reader with 64-bit wrap-around arithmetic, C05/TskFile.v), corruptions in
+   C10/Corrupt.v.  Files are [kas_write its] for items in stored order ([kas_encode] sorts first). *)
+From Coq Require Import List ZArith Bool.
+From TskVerif Require Import Base.Common Gen.Generated C05.Bytes C05.Kastore C05.KastoreProofs C05.TskFile
+  C10.Corrupt C10.TruncProofs C10.CorruptProofs.
 Import ListNotations.
 Open Scope Z_scope.
 
-Theorem empty_stream_is_eof : kas_open true [] = Err E_EOF /\ kas_open false [] = Err E_EOF.
-Proof. exact (conj eq_refl eq_refl). Qed.
+(* (f) every proper prefix of a written file is rejected: the empty prefix as end-of-stream, every
+   other one as a format error (never an object, never end-of-stream) *)
+Theorem truncation_rejected : forall its n, items_ok its -> (n < length (kas_write its))%nat ->
+  kas_open true (firstn n (kas_write its)) = Err (if Nat.eqb n 0 then E_EOF else E_FORMAT).
+Proof. exact TruncProofs.truncation_rejected. Qed.
+
+Theorem truncation_rejected_decode : forall its n, items_ok its -> (n < length (kas_write its))%nat ->
+  kas_decode (firstn n (kas_write its)) = Err (if Nat.eqb n 0 then E_EOF else E_FORMAT).
+Proof. exact TruncProofs.truncation_rejected_decode. Qed.
+
+Theorem eof_only_for_empty_stream : forall read_all s, kas_open read_all s = Err E_EOF <-> s = [].
+Proof. exact TruncProofs.eof_iff_empty. Qed.
+
+(* (g) header fields: another magic, another major version, another file_size are rejected,
+   whatever the rest of the file is (num_items: differential only, see notes) *)
+Theorem magic_rejected : forall read_all magic major minor n fs r rest,
+  length magic = 8%nat -> length r = 40%nat -> 0 <= major < 65536 -> 0 <= n < 4294967296 -> 0 <= fs < two64 ->
+  magic <> kas_magic ->
+  kas_open read_all (header_g magic major minor n fs r ++ rest) = Err E_FORMAT.
+Proof. exact CorruptProofs.magic_rejected. Qed.
+
+Theorem major_version_rejected : forall read_all major minor n fs r rest,
+  length r = 40%nat -> 0 <= major < 65536 -> 0 <= n < 4294967296 -> 0 <= fs < two64 ->
+  major <> kas_file_version_major ->
+  kas_open read_all (header_g kas_magic major minor n fs r ++ rest)
+  = Err (if major <? kas_file_version_major then E_TOO_OLD else E_TOO_NEW).
+Proof. exact CorruptProofs.major_version_rejected. Qed.
+
+Theorem file_size_rejected : forall its fs' minor r40 y,
+  items_ok its -> its <> [] -> length r40 = 40%nat -> 0 <= fs' < two64 -> fs' <> kw_fs its ->
+  exists e, kas_open true (header_bytes kas_file_version_major minor (kw_n its) fs' r40 ++ kw_descs its ++ y) = Err e.
+Proof. exact CorruptProofs.file_size_rejected. Qed.
+
+(* (i) bytes the format reserves (header 24..63, descriptor 1..7 and 40..63) and the minor version
+   do not influence the reader: finding F10, first half, as a theorem *)
+Theorem ignored_bytes_identity : forall its minor r40 rs y,
+  items_ok its -> its <> [] -> length r40 = 40%nat -> reserved_ok rs (length its) ->
+  kas_open true (header_bytes kas_file_version_major minor (kw_n its) (kw_fs its) r40
+                 ++ descs_bytes_g (layout (kw_k its) (kw_a its) its) rs ++ y)
+  = kas_open true (kw_header its ++ kw_descs its ++ y).
+Proof. exact CorruptProofs.ignored_bytes_identity. Qed.
+
+(* (j) REFUTED: "altered key bytes are rejected" - optional key, finding F10 *)
+Theorem optional_key_drop_refuted :
+  exists p v, slice f0 4987 10 = fmt_key 4 /\ 4987 <= p < 4997 /\ byte_ok v /\ nth (Z.to_nat p) f0 0 <> v /\
+    match tsk_load_bytes false false (subst_byte f0 p v) with
+    | Ok (tc', []) => negb (tcoll_eqb tc' tc0) && zlist_eqb (tc_time_units tc') tsk_time_units_unknown
+    | _ => false
+    end = true.
+Proof. exact CorruptProofs.optional_key_drop_refuted. Qed.
+
+(* (h) REFUTED: "an altered descriptor field is rejected" - array_len, 64-bit wrap-around
+   (finding F15: out-of-bounds read, SIGSEGV in the implementation) and alignment slack (F16) *)
+Theorem array_len_wrap_refuted :
+  exists p v, p = 64 + 64 * 45 + 39 /\ byte_ok v /\ nth (Z.to_nat p) f0 0 <> v /\
+    is_ok (kas_open true (subst_byte f0 p v)) = true /\
+    load_verdict false false (subst_byte f0 p v) = V_OOB.
+Proof. exact CorruptProofs.array_len_wrap_refuted. Qed.
+
+Theorem array_len_wrap_refuted_kas :
+  let f := kas_encode [mk_item [97] 4 1 [1; 2; 3; 4]] in
+  exists v, byte_ok v /\ nth (64 + 39) f 0 <> v /\
+    is_ok (kas_open true (subst_byte f (64 + 39) v)) = true /\ kas_decode (subst_byte f (64 + 39) v) = OOB.
+Proof. exact CorruptProofs.array_len_wrap_refuted_kas. Qed.
+
+Theorem array_len_slack_refuted :
+  exists p v, p = 64 + 64 * 58 + 32 /\ byte_ok v /\ nth (Z.to_nat p) f0 0 <> v /\
+    match tsk_load_bytes false false (subst_byte f0 p v) with
+    | Ok (tc', []) => zlist_eqb (tc_time_units tc') [116; 105; 99; 107]
+    | _ => false
+    end = true.
+Proof. exact CorruptProofs.array_len_slack_refuted. Qed.
